@@ -28,6 +28,7 @@ import (
 	"fmt"
 	"io"
 	"log"
+	"net"
 	"os"
 	"sort"
 	"strings"
@@ -65,6 +66,8 @@ type kase struct {
 	Cleanup   int         `json:"cleanup"`   // Stops during cleanup
 	After     int         `json:"after"`     // Stops after Run returned
 	NoRun     bool        `json:"norun"`     // never call Run
+	PrePanic  bool        `json:"pre_panic"` // a required ref parameter is missing: preRun panics, the deferred cleanup still runs
+	Real      int         `json:"real"`      // >0: a context over a real FailureDetector and local TCP mailbox, Real Stops at once (oracle only)
 	SettleUs  int         `json:"settle_us"` // how long to let released Stops reach their blocking point
 	DeadlineM int         `json:"deadline_ms"`
 }
@@ -215,15 +218,16 @@ func archetype(d *driver, name string, nested bool) distsys.MPCalArchetype {
 			if what == "reserr" {
 				atomic.StoreInt32(&d.failRead, 1)
 			}
-			w := iface.RequireArchetypeResource("&" + name + ".w")
-			if _, err := iface.Read(w, nil); err != nil {
-				return err
-			}
+			// the attempt first indexes its IncMap keys (realising the new ones), then reads the witness resource
 			for _, k := range att.Touch {
 				m := iface.RequireArchetypeResource("&" + name + ".im")
 				if _, err := iface.Read(m, []tla.Value{tla.MakeNumber(int32(k))}); err != nil {
 					return err
 				}
+			}
+			w := iface.RequireArchetypeResource("&" + name + ".w")
+			if _, err := iface.Read(w, nil); err != nil {
+				return err
 			}
 			switch what {
 			case "commit":
@@ -314,7 +318,128 @@ func callRun(ctx *distsys.MPCalContext) (rr runRet) {
 	return
 }
 
+// realCase: a context whose resources are a real FailureDetector (IncMap of SingleFailureDetector) and a real local TCP
+// mailbox; the body realises both, then loops; k Stops at once; everything must return, a further Run must be refused.
+func realCase(k kase) (res result) {
+	res.ID = k.ID
+	res.Closes = map[string]int{}
+	res.Created = map[string]int{}
+	res.RunClass = []string{}
+	res.Rerun = []string{}
+	res.CreatedOrder = []int{}
+	ln, err := net.Listen("tcp", "127.0.0.1:0")
+	if err != nil {
+		res.Err = err.Error()
+		return
+	}
+	mboxAddr := ln.Addr().String()
+	ln.Close()
+	n := int32(0)
+	ready := make(chan struct{}, 1)
+	var commits int32
+	body := func(iface distsys.ArchetypeInterface) error {
+		i := atomic.AddInt32(&n, 1)
+		switch i {
+		case 1: // realise fd[2]: uninitialized detector, ReadValue sleeps one interval and aborts
+			h := iface.RequireArchetypeResource("&R.fd")
+			_, err := iface.Read(h, []tla.Value{tla.MakeNumber(2)})
+			if err != nil && err != distsys.ErrCriticalSectionAborted {
+				return err
+			}
+			return distsys.ErrCriticalSectionAborted
+		case 2: // realise the local mailbox: empty, the read times out and aborts
+			h := iface.RequireArchetypeResource("&R.net")
+			_, err := iface.Read(h, []tla.Value{tla.MakeNumber(1)})
+			if err != nil && err != distsys.ErrCriticalSectionAborted {
+				return err
+			}
+			return distsys.ErrCriticalSectionAborted
+		}
+		if i == 3 {
+			ready <- struct{}{}
+		}
+		atomic.AddInt32(&commits, 1)
+		time.Sleep(100 * time.Microsecond)
+		return iface.Goto("R.loop")
+	}
+	arch := distsys.MPCalArchetype{
+		Name: "R", Label: "R.loop",
+		JumpTable: distsys.MakeMPCalJumpTable(distsys.MPCalCriticalSection{Name: "R.loop", Body: body}),
+		ProcTable: distsys.MakeMPCalProcTable(),
+		PreAmble:  func(distsys.ArchetypeInterface) {},
+	}
+	ctx := distsys.NewMPCalContext(tla.MakeNumber(1), arch,
+		distsys.EnsureArchetypeRefParam("fd", resources.NewFailureDetector(func(tla.Value) string { return "127.0.0.1:1" },
+			resources.WithFailureDetectorPullInterval(20*time.Millisecond), resources.WithFailureDetectorTimeout(10*time.Millisecond))),
+		distsys.EnsureArchetypeRefParam("net", resources.NewTCPMailboxes(func(tla.Value) (resources.MailboxKind, string) {
+			return resources.MailboxesLocal, mboxAddr
+		}, resources.WithMailboxesReadTimeout(5*time.Millisecond))))
+	runCh := make(chan runRet, 1)
+	go func() { runCh <- callRun(ctx) }()
+	deadline := 6 * time.Second
+	select {
+	case <-ready:
+		res.Started = true
+	case rr := <-runCh:
+		res.RunReturned = true
+		res.RunClass = classify(rr.err, rr.panicked)
+		res.Err = "real run ended early: " + fmt.Sprint(rr.err, rr.panicked)
+		return
+	case <-time.After(deadline):
+		res.Hang = "real-start"
+		return
+	}
+	stopDone := make(chan struct{}, k.Real)
+	for i := 0; i < k.Real; i++ {
+		res.StopsIssued++
+		go func() { ctx.Stop(); stopDone <- struct{}{} }()
+	}
+	select {
+	case rr := <-runCh:
+		res.RunReturned = true
+		res.RunClass = classify(rr.err, rr.panicked)
+		if rr.err != nil {
+			res.Err = firstLine(rr.err.Error())
+		}
+	case <-time.After(deadline):
+		res.Hang = "run"
+		return
+	}
+	c0 := atomic.LoadInt32(&commits)
+	t := time.NewTimer(deadline)
+	for res.StopsReturned < k.Real {
+		select {
+		case <-stopDone:
+			res.StopsReturned++
+		case <-t.C:
+			res.Hang = "stops-after-run"
+			return
+		}
+	}
+	r2 := make(chan runRet, 1)
+	go func() { r2 <- callRun(ctx) }()
+	select {
+	case x := <-r2:
+		res.Rerun = append(res.Rerun, rerunClass(x, atomic.LoadInt32(&commits) != c0))
+	case <-time.After(deadline):
+		res.Hang = "rerun-after"
+	}
+	res.Commits = int(c0)
+	res.CommitAfterStop = int(atomic.LoadInt32(&commits) - c0)
+	// the mailbox's listener must be gone: the address can be bound again
+	if l2, err := net.Listen("tcp", mboxAddr); err == nil {
+		l2.Close()
+		res.Closes["net-listener-released"] = 1
+	} else {
+		res.Closes["net-listener-released"] = 0
+	}
+	return
+}
+
 func runCase(k kase) (res result) {
+	if k.Real > 0 {
+		return realCase(k)
+	}
 	res.ID = k.ID
 	res.Closes = map[string]int{}
 	res.Created = map[string]int{}
@@ -379,7 +504,11 @@ func runCase(k kase) (res result) {
 			return ctxs
 		}))
 	}
-	ctx := distsys.NewMPCalContext(tla.MakeNumber(1), archetype(d, A, false), cfg...)
+	archA := archetype(d, A, false)
+	if k.PrePanic {
+		archA.RequiredRefParams = []string{"A.missing"}
+	}
+	ctx := distsys.NewMPCalContext(tla.MakeNumber(1), archA, cfg...)
 	// nested contexts are started by NewNested; wait until each has begun its first attempt, so that the
 	// later Close finds running contexts (a context stopped before it starts closes nothing, which is allowed)
 	if k.Nested > 0 {
